@@ -2,7 +2,7 @@
 deaths, damage batches, achievements, plane kills, ribbons, mid-battle join, battle end) encoded against a bundled
 version's OWN definitions and packet numbering - the index maps come from the extracted MODEL (tools/defsview.model_view),
 not from the library - wrapped by the model's container writer.  Used by C09, C10 (dynamic clause), C13, C14, C19."""
-import os, struct, json, pickle, zlib, importlib, tempfile
+import json, os, struct, json, pickle, zlib, importlib, tempfile
 from tools import common, impl, gen_types, defsview, synth, c01
 
 
@@ -111,6 +111,19 @@ def wows_versions():
     return sorted(x for x in os.listdir(base) if os.path.isdir(os.path.join(base, x)) and not x.startswith('__'))
 
 
+def representative_versions(step=5):
+    """quick tiers: one version per DISTINCT battle_controller.py / players_info.py / constants.py source (files that differ in any byte), every
+    version that has a build-specific sibling directory, and every step-th version"""
+    import hashlib
+    wv = wows_versions(); base = os.path.join(common.REPO, 'replay_unpack', 'clients', 'wows', 'versions'); seen = {}
+    for v in wv:
+        for fn in ('battle_controller.py', 'players_info.py', 'constants.py'):
+            p = os.path.join(base, v, fn)
+            if os.path.exists(p): seen.setdefault((fn, hashlib.md5(open(p, 'rb').read()).hexdigest()), v)
+    sib = [v for v in wv if len(v.split('_')) == 4] + ['_'.join(v.split('_')[:3]) for v in wv if len(v.split('_')) == 4]
+    return sorted(set(seen.values()) | set(x for x in sib if x in wv) | set(wv[::step]) | {wv[-1]})
+
+
 def roster(consts, ids, extra=None):
     pm = {v: k for k, v in consts.id_property_map.items()}
     out = []
@@ -155,7 +168,8 @@ def build_wows(v, rng, join=True, battle_end=True, map_name='spaces/16_OC_bees_t
         ft = field_type(t, ['learnedSkills'])
         if ft is not None and strip_user(ft)[0] == 'array':
             et = strip_user(strip_user(ft)[1])
-            set_path(val, ['learnedSkills'], [[] if et[0] == 'array' else default_value(et, rng) for _ in range(6)])
+            skill_ids = sorted(getattr(consts, 'SKILL_TYPE_ID_TO_NAME', {}) or {1: 'a', 2: 'b', 3: 'c'})[:7]
+            set_path(val, ['learnedSkills'], [(skill_ids[k % 3:] + skill_ids[:k % 3] if k < 4 else []) if et[0] == 'array' else default_value(et, rng) for k in range(6)])
         return val
     for vid in (V1, V2):
         b.create(vid, 'Vehicle', [('crewModifiersCompactParams', crew)] if 'crewModifiersCompactParams' in vnames else [])
@@ -236,6 +250,13 @@ def build_wows(v, rng, join=True, battle_end=True, map_name='spaces/16_OC_bees_t
         r3 = roster(consts, [0], extra={'name': 'renamed'})
         b.call(A, 'Avatar', 'onGameRoomStateChanged', [pk(r3) if i == 0 else pk([]) for i in range(len(gr))])
         merge(r3)
+    if new:
+        # the post-battle statistics packet (only the renumbered table has it); 12_7_0 unpacks it into the summary, the others ignore it
+        priv = [[1, 2] if nm in ('init_economics', 'common_economics', 'subtotal_economics') else i for i, nm in enumerate(getattr(consts, 'PLAYER_PRIVATE_RESULTS', ['a', 'b']))]
+        pub = [{} if nm in ('interactions', 'buildingInteractions') else i for i, nm in enumerate(getattr(consts, 'CLIENT_PUBLIC_RESULTS', ['a', 'b']))]
+        body = json.dumps({'commonList': list(range(len(getattr(consts, 'COMMON_RESULTS', [0, 1])))), 'privateDataList': priv, 'playersPublicInfo': {'100': pub},
+                           'buildings': {'7': list(range(len(getattr(consts, 'BUILDINGS_FULL_RESULTS', [0, 1]))))}}).encode()
+        b.pkt('BattleStats', struct.pack('<i', len(body)) + body); b.expect['post_battle'] = True
     if battle_end and 'onBattleEnd' in am:
         be = am['onBattleEnd']['args']
         b.call(A, 'Avatar', 'onBattleEnd', [1, 2][:len(be)]); b.expect['ended'] = True
